@@ -20,7 +20,7 @@ import (
 )
 
 func init() {
-	register(&Prop{ID: "C06", Witness: true, N: 6000, Quick: 120, QuickFixed: uint64(5 + len(gen.Exemplars)), Build: "race", Workers: 8, StallSec: 600,
+	register(&Prop{ID: "C06", Witness: true, N: 6000, Quick: 60, QuickFixed: uint64(5 + len(gen.Exemplars)), Build: "race", Workers: 8, StallSec: 600,
 		Assume: []string{"the Go race detector (-race) observes unsynchronised conflicting accesses of the executions driven here; reports are read from its log per case, deduplicated by the pair of innermost coregex functions and the API entry points", "the sequential result of each (API, haystack) on the same value is the specification of the concurrent call"},
 		Rule:   "case = one pattern G(D,i) (exemplars of every strategy and mutants) compiled once; 12 (API, haystack) calls are first executed alone (sequential specification), then G in {2, 8, 32} goroutines released by a barrier execute seeded shuffles of those calls on the ONE shared Regex (same and different haystacks, ASCII and non-ASCII, runtime.GC() interleaved); every concurrent result must equal its sequential result and the race log must stay empty; one evaluation = one concurrent call; distinct_nontrivial = distinct (pattern, API pair) combinations that were in flight at the same time on one value (in-flight counter)",
 		Pre: func(p *Prop) {
